@@ -1,0 +1,11 @@
+//go:build verif
+
+package transport
+
+// C16: the transporter's registry (message type -> lane -> channel) is shared
+// by the control reader and every goroutine waiting for a reply.
+//
+//verif:guarded transporterImpl mu registry
+//verif:sweep-type transporterImpl props=C16 kinds=lock
+
+//verif:sweep (*~/pkg/transport.transporterImpl).Send props=C16 kinds=nopanic
